@@ -38,6 +38,7 @@ type Scenario struct {
 	TPB     time.Duration
 	TPB2    time.Duration // time per block returned by the callback from height TPB2From on (0: constant)
 	TPB2From uint32
+	TPBAlt   bool // from TPB2From on the block time alternates between TPB2 and TPB with every height
 	MaxTPB  time.Duration // 0: dynamic block time off
 	TSInc   uint64
 	Fault   []FaultKind // per identity
@@ -131,7 +132,7 @@ func primaryOf(h uint32, v byte, n int) int {
 
 // TPBAt is what the TimePerBlock callback returns for height h.
 func (sc *Scenario) TPBAt(h uint32) time.Duration {
-	if sc.TPB2 > 0 && h >= sc.TPB2From {
+	if sc.TPB2 > 0 && h >= sc.TPB2From && (!sc.TPBAlt || (h-sc.TPB2From)%2 == 0) {
 		return sc.TPB2
 	}
 	return sc.TPB
@@ -160,7 +161,7 @@ func (sc *Scenario) Summary() map[string]any {
 	return map[string]any{
 		"family": sc.Family, "identities": sc.NIdent, "observers": sc.NObs, "epochs": ep,
 		"start_height": sc.Start, "heights": sc.Heights, "amev_height": sc.AMEV,
-		"time_per_block_ms": sc.TPB.Milliseconds(), "max_time_per_block_ms": sc.MaxTPB.Milliseconds(),
+		"time_per_block_ms": sc.TPB.Milliseconds(), "max_time_per_block_ms": sc.MaxTPB.Milliseconds(), "time_per_block_2_ms": sc.TPB2.Milliseconds(), "time_per_block_alternates": sc.TPBAlt,
 		"ts_increment": sc.TSInc, "fault_kinds": fk, "watch_only_flags": sc.FlagWO,
 		"lat_base_ms": float64(sc.LatBase) / 1e6, "lat_jitter_ms": float64(sc.LatJitter) / 1e6,
 		"drop_pm": sc.DropPM, "dup_pm": sc.DupPM, "gst_ms": float64(sc.GST) / 1e6,
@@ -357,8 +358,15 @@ func SafetyScenario(t *Tape) *Scenario {
 		sc.MaxTPB = sc.TPB * time.Duration(pick(t, SScen, 2, 3, 8, 1))
 	}
 	if t.Chance(SScen, 1, 4) {
-		sc.TPB2 = sc.TPB * time.Duration(pick(t, SScen, 2, 3)) / 2
+		sc.TPB2 = sc.TPB * time.Duration(pick(t, SScen, 2, 3, 1, 6)) / 2
 		sc.TPB2From = sc.Start + 1 + uint32(t.Range(SScen, 1, int64(sc.Heights)))
+		if t.Chance(SScen, 1, 2) {
+			// the block time changes with every block from then on (and the ledger may move on
+			// by block sync before the application calls Reset: the callbacks then already answer
+			// for the next height while the library is still at the old one)
+			sc.TPBAlt = true
+			sc.TPB2From = sc.Start + 1
+		}
 	}
 	if t.Chance(SScen, 1, 6) {
 		// a validator with the watch-only flag set behaves like a silent one for
